@@ -23,17 +23,29 @@ claimed = {
  "C19": ("On every path of every shape the emitted UnmarshalJSON is executed symbolically on a symbolic document (every kind at every position): no panic path is feasible, and on every error path the receiver is syntactically untouched (its arbitrary prior value).",
          "Library calls do not panic (stub contract); malformed input and non-object roots are covered for the root decode."),
 }
+
+claimed.update({
+ "C09": ("Properties with a default (string, number, integer, boolean, string enum, array of strings, untyped) through the whole generator; emitted code on a symbolic document: an absent or null member is accepted and the decoded field equals the default, a present value is kept, the default literal type-checks in its field.",
+         "Default values are concrete representatives (they pass through litter.Sdump natively); constraints are symbolic and assumed to admit the default. Recorded finding: defaults into pointer (nullable) fields do not compile."),
+ "C10": ("Relational: every shape generated inline and through $ref, both emitted programs on the same symbolic document (same verdict); a recursive definition used by several referrers yields one Go type and decodes documents nested 3 deep; two documents with same-named definitions behind the same reference string keep their own meaning (multi-file harness over a virtual file system).",
+         "The real file system (extension probing, symlinks), HTTP refs and nested definitions are not covered; the CachedLoader kernel is not encoded (ids are concrete). Recorded findings: nullable, format-typed and array definitions lose validation through $ref."),
+ "C11": ("allOf / anyOf of two object branches (inline and by $ref, overlapping or disjoint property sets, own required, symbolic string-length keywords): emitted code on a symbolic document accepts iff every (allOf) / some (anyOf) branch's reference model accepts.",
+         "mergo.Merge is a hand model of deepMerge for the option set used (validated by native replay with the real mergo); B=2 branches, object branches only. Recorded findings: the same keyword in two branches (first wins), anyOf branches by $ref without unmarshaler."),
+ "C12": ("Every range over a Go map executed in repository code is a schedule choice; all orders of maps with <= 5 entries are explored on three harness shapes and every schedule must emit byte-identical files under identical names; a difference is confirmed natively by repeated runs.",
+         "Schedules are enumerated by forking; the solver contributes only hole identity (weakest fit of the family, stated). Key permutation of the JSON input is map order after parsing; directory independence and main.go's allKeys are not covered."),
+ "C14": ("Identifierize on strings of up to R symbolic runes, each ranging over all realizable attribute vectors of Go's Unicode tables (the solver picks the class, a witness code point replays it): non-empty, exported, valid identifier; colliding sibling names get distinct fields whose tags carry the exact name.",
+         "R=3 (quick) / 4 (thorough) runes; empty --capitalization list at L1. Recorded findings: non-decimal numerals kept, lower-case letters without upper-case mapping stay unexported; names with quote/comma/backtick in tags are not covered."),
+ "C16": ("Relational: one symbolic schema generated under two configurations differing in exactly one option (--only-models, --tags, --extra-imports); the emitted files are compared at declaration level with hole identifiers compared by their terms.",
+         "The comparison is a per-path oracle on the symbolic output; identifier-renaming options and main.go's flag wiring are not covered."),
+ "C17": ("With --extra-imports both emitted methods of every type run symbolically on the same symbolic type-correct document (valid or violating required/bound/length/pattern/string-enum rules, with and without defaults): same verdict and equal decoded values.",
+         "Assumes yaml.v3 and encoding/json fill Go values identically for type-correct documents (stub contract, validated on replay); default tag set only."),
+ "C18": ("Generator level: one ungeneratable element (5 kinds) injected at 9 positions makes addFile fail on every path; on every valid shape of the grammar under all --min-sized-ints/--extra-imports/--only-models combinations generation succeeds and no panic path is feasible; three unusual legal inputs.",
+         "main.go (exit status, stdout/stderr, file writes, cobra flag parsing), unparsable and unreadable input files and termination are NOT covered: the claim stops at generator.addFile/Sources. Recorded findings: unresolvable $ref branches are swallowed, {\"$ref\": \"#\"} and an empty default key panic."),
+ "C20": ("Two schema files with different ids under three package/output layouts, both argument orders, with and without the second file on the command line: outputs carry the mapped names, the emitted packages type-check TOGETHER (qualified cross-package references and imports), every root type lands in the package of its id only, and all explored orders emit identical files.",
+         "F=2 files with concrete ids; virtual file system stub for os.Stat. Recorded finding: same-named definitions of two schemas in one package clash."),
+})
 not_applicable_wip = {
- "C09": "check not built yet (defaults; planned)",
- "C10": "check not built yet ($ref transparency; planned)",
- "C11": "check not built yet (allOf/anyOf; planned)",
- "C12": "check not built yet (determinism via map-order schedules; planned)",
- "C13": "check not built yet (equivalent spellings; planned)",
- "C14": "check not built yet (identifiers; planned)",
- "C16": "check not built yet (options; planned)",
- "C17": "check not built yet (YAML vs JSON; planned)",
- "C18": "check not built yet (fail loudly; planned)",
- "C20": "check not built yet (multi-file; planned)",
+ "C13": "the listed spellings (JSON vs YAML, id vs $id, definitions vs $defs, type as string vs list, true vs {}) differ only in the byte-level parsers (encoding/json driven by struct tags and UnmarshalJSON methods, goccy/go-yaml); after parsing they are the same Go value, so a solver-based check that starts from the parsed representation would assume the property, and encoding the parsers (reflection-driven, byte loops) is out of reach of the hand-written go/ssa encoder in the time available; the seeded change C13a is therefore not detected (DESIGN §9)",
 }
 m={
  "version":1,
